@@ -641,6 +641,31 @@ func main() {
 			Coq: cq.T(cq.Z(c.N), segs(c.Sorted)), JSON: c, Buckets: []string{fmt.Sprintf("writers-%d", w)},
 		})
 	}
+	// screened search for a wrap-time race: many more cheap rounds (one wrap each, 8 or 16 contending writers);
+	// only rounds whose emitted multiset looks wrong here are handed to the Coq oracle (none on a correct tree)
+	nsearch, hits := o.Scale(160, 800), 0
+	for i := 0; i < nsearch && hits < 2; i++ {
+		w := []int{8, 16}[i%2]
+		c := runConc(w, 1+r.Intn(4), int64(66000/w+r.Intn(100)), r)
+		clean := int64(len(c.Sorted)) == c.N
+		for k := int64(0); clean && k < c.N; k++ {
+			// sorted { k mod 2^16 | k < N } with 2^16 <= N < 2^17: values below N-2^16 twice, the others once
+			lo := c.N - 65536
+			var want int64
+			if k < 2*lo {
+				want = k / 2
+			} else {
+				want = k - lo
+			}
+			clean = c.Sorted[k] == want
+		}
+		if !clean {
+			hits++
+			conc.Cases = append(conc.Cases, cq.Case{
+				Coq: cq.T(cq.Z(c.N), segs(c.Sorted)), JSON: c, Buckets: []string{"screened-wrap-race"},
+			})
+		}
+	}
 	// lifecycle histories over several factories / instances / stream handles
 	nlife := o.Scale(500, 12000)
 	for i := 0; i < nlife; i++ {
@@ -664,7 +689,7 @@ func main() {
 	}
 	cq.Write(o, "seq: 1..4 streams (negotiated ids 1..14, two entries, not negotiated, ids 0/15/16/255/256/261) x 1..40 writes over header shapes "+
 		"(nil, no extension, one-byte others/same id, two-byte, RFC3550 profile, empty blocks, element under the stream's own id already present as first/middle/last/sole element in one-/two-byte profile), payload 0..1460, every 11th downstream write failing; "+
-		"non-trivial = at least 2 forwarded packets; long: >2^16 writes on one stream; conc: 2/4/16 goroutines x >=70000 writes over 1..4 streams; "+
+		"non-trivial = at least 2 forwarded packets; long: >2^16 writes on one stream; conc: 2/4/16 goroutines x >=70000 writes over 1..4 streams, plus up to 160 screened one-wrap rounds with 8/16 writers (a round is emitted only if its multiset looks wrong to the harness); "+
 		"life: histories of API calls (NewInterceptor via factory / Registry.Build / zero value on 1..2 factories and 1..3 instances, BindLocalStream, "+
 		"UnbindLocalStream, writes through current and held writers, Close, BindRemoteStream/UnbindRemoteStream/BindRTCPReader/BindRTCPWriter) over 1..7 stream handles, "+
 		"scenarios (interleaved instances of one factory, unbind-all then bind again / held writers, close, bind-unbind churn) and free random walks; "+
